@@ -95,14 +95,14 @@ CHECKS.update({
              "mem::take (or is built where the ledger is known empty), Complete is built only on the nothing-outstanding edges, "
              "order ids are fresh, only designated functions touch the ledger and delivered responses are consumed by key, step() re-checks settled promises before taking "
              "a ready context, and the two result mappers agree per VmResult variant. Protocol-history clauses (progress, "
-             "combinator settlement) are not decided. Also: the index a race settler carries ranges over the collection that sized the order-id vector. The countdown of Promise.all starts at the number of handlers the attach loop creates.",
+             "combinator settlement) are not decided. Also: the index a race settler carries ranges over the collection that sized the order-id vector. The countdown of Promise.all starts at the number of handlers the attach loop creates. The run disposer empties the three ledgers (repaired, fix: commit).",
         ref="4/C08"),
     "C19": dict(
         technique="static analysis: sibling comparison of transitive effect signatures (field writes, ledger takes, constructions) on corresponding CFG fragments: match arms of shared enums, dominating regions; exit-path search from the non-empty edge of the import test",
         text="Decides sibling agreement on corresponding fragments: the two VmResult->StepResult mappers per variant, outcome "
              "classes of every VmResult consumer per role, the ModuleExport finalisers per variant, the frame pop sites, and the "
              "tsrun_step/tsrun_run wrappers; a non-empty set of missing imports has NeedImports as its only outcome in every entry point; the entry points install the current module path alike and every installer of a program's module scope writes the whole run record the step() finaliser takes (the eval() suspension defect was repaired, fix: commit). The module-role disagreement (a dependency whose body suspends fails, the entry "
-             "module suspends) is genuine and listed with failing programs. Equality of results is not decided.",
+             "module suspends) is genuine and listed with failing programs. Equality of results is not decided. Every thrown value a StepResult-returning function hands back is materialised first (repaired, fix: commit).",
         ref="4/C19"),
 })
 
